@@ -104,7 +104,7 @@ func (w *World) applyEvent(ev string) bool {
 		w.Extend(k, nil)
 		w.Announce(w.P)
 		w.settle()
-	case "reorg":
+	case "reorg", "reorg+": // reorg+: and the node follows it to the end
 		d, _ := strconv.Atoi(p[1])
 		n, _ := strconv.Atoi(p[2])
 		if !w.Reorg(d, n) {
@@ -113,6 +113,10 @@ func (w *World) applyEvent(ev string) bool {
 		w.everReorged, w.lastUnsync = true, w.S.Now
 		w.Announce(w.P)
 		w.settle()
+		if p[0] == "reorg+" {
+			w.settleMacro()
+			w.lastUnsync = w.S.Now
+		}
 	case "back":
 		k, _ := strconv.Atoi(p[1])
 		if !w.Back(k) {
@@ -544,7 +548,7 @@ func (w *World) eventEnabled(ev string) bool {
 			}
 		}
 		return false
-	case "reorg":
+	case "reorg", "reorg+":
 		d, _ := strconv.Atoi(p[1])
 		return d < len(w.Best)-1
 	case "back":
@@ -557,6 +561,9 @@ func (w *World) eventEnabled(ev string) bool {
 		k, _ := strconv.Atoi(p[1])
 		return w.nthLastHeaders(k) != nil
 	case "uh", "uinv", "utx", "uxtx", "ublock", "uxblock", "uaddr", "ugarbage":
+		if p[0] == "uh" && len(p) > 1 && p[1] == "orphan" && len(w.Abandoned) < 4 {
+			return false
+		}
 		pc := w.U[untrustedAddrs[0]]
 		return pc != nil && pc.conn != nil && !pc.conn.IsClosed() && !pc.conn.Peer.IsClosed()
 	case "h", "b":
